@@ -4,10 +4,12 @@ import glob, json, os
 V = os.path.dirname(os.path.dirname(os.path.abspath(__file__)))
 props = [json.loads(l) for l in open(os.path.join(V, "properties.jsonl")) if l.strip()]
 checks, na = [], []
+# only properties listed in manifest.d/CLAIMED are claimed (agents may have written their entry before their slice is integrated)
+CLAIMED = set(open(os.path.join(V, "manifest.d", "CLAIMED")).read().split())
 for p in props:
     pid = p["id"]
     f = os.path.join(V, "manifest.d", pid + ".json")
-    if os.path.exists(f):
+    if os.path.exists(f) and pid in CLAIMED:
         c = json.load(open(f))
         if c.get("not_applicable"):
             na.append({"property_id": pid, "reason": c["not_applicable"]})
